@@ -24,6 +24,20 @@ THEOREMS = [
     "Typedpy.C13.factory_default_equiv", "Typedpy.C13.fixed_factory_builtin_class",
     "Typedpy.C13.scope_irrelevant", "Typedpy.C13.string_annotation_equiv", "Typedpy.C13.counterexample_quoted_future",
     "Typedpy.C13.counterexample_quoted_50", "Typedpy.C13.counterexample_enclosing_scope",
+    "Typedpy.C13.same_observation",
+    "Typedpy.C13.same_serialize",
+    "Typedpy.C13.same_deserialize",
+    "Typedpy.C13.same_schema",
+    "Typedpy.C13.behaviour_example",
+    "Typedpy.C13.struct_field_equiv",
+    "Typedpy.C13.tuple_pair_equiv",
+    "Typedpy.C13.counterexample_tuple_items_struct",
+    "Typedpy.C13.counterexample_struct_first_nested",
+    "Typedpy.C13.elaborate_flatten",
+    "Typedpy.C13.flatten_equiv",
+    "Typedpy.C13.elabField_flatten",
+    "Typedpy.C13.flatten_example",
+    "Typedpy.C13.union_duplicate_collapses",
     "Typedpy.C13.equiv_example",
 ]
 RULE = ("class bodies of 1-3 fields; each field an abstract meaning tree (scalar / constrained field literal / bare or "
@@ -76,7 +90,7 @@ def pre_build():
 
 
 def cases(rng, tier):
-    return S.gen_cases(rng, tier, 480 if tier == "quick" else 2300)
+    return S.gen_cases(rng, tier, 420 if tier == "quick" else 2200)
 
 
 def search_cases(rng, tier):
